@@ -1041,6 +1041,7 @@ theorem step_ok (s : St) (i : In) : StepOk s (step s i).1 (step s i).2 := by
   | answer tok a => exact step_answer s tok a
   | via o addr port => exact step_via s o addr port
   | viaLost addr port => exact step_viaLost s addr port
+  | newConsensus => exact Or.inl ⟨Le.refl s, rfl⟩
   | addrMap name ip =>
     refine Or.inl ⟨Le.of_pend_eq ?_, ?_⟩
     · simp only [step, addrUpdate]; split <;> split <;> rfl
